@@ -180,6 +180,10 @@ class LoaderEngine(VectorEngine):
 
     def replay(self, ctx, rep):
         c = dict(rep["rendered"]); c["id"] = "replay"
+        if rep.get("flow") == "urlfault":
+            r = ctx.execute([c], **self.exec_kw)["replay"]
+            print("replay observed:", r.get("status"), (r.get("out") or "")[:80])
+            return r.get("status") == "err" and not r.get("out") if rep["expected"] == "err" else True
         if rep.get("flow") == "B":
             r = ctx.execute([c], **self.exec_kw)["replay"]
             bad = []
@@ -288,6 +292,53 @@ class C39(LoaderEngine):
         return c
 
     baseline_status = {}
+
+    def url_faults(self, ctx):
+        """second family: loads of URL-shaped targets (.css, http(s)://, //, url()) and of a missing file, a fault on every call"""
+        from engines import resolve
+        r = ctx.mc("MC_Resolve", "MC_Resolve_fault.cfg", workers=2)
+        vecs = list(ctx.vectors(r))
+        cases = []
+        for i, v in enumerate(vecs):
+            files = {"main.scss": ".before { k: v }\n" + resolve.stmt(v["kind"], v["cls"]) + "\n.after { k: v }\n"}
+            if v["kind"] != "import":      # @use / @forward must come first
+                files["main.scss"] = resolve.stmt(v["kind"], v["cls"]) + "\n.after { k: v }\n"
+            if v["present"]:
+                files["u.css"] = ".u { k: v }\n"
+            c = dict(id=f"uf#{i}", files=files, entry="main.scss", want_calls=True)
+            if v["fault"]["at"] > 0:
+                c["faults"] = [v["fault"]]
+            cases.append(c)
+        res = ctx.execute(cases, **self.exec_kw)
+        base = {}
+        for i, v in enumerate(vecs):
+            if v["fault"]["at"] == 0:
+                r0 = res[cases[i]["id"]]
+                base[(v["kind"], v["cls"], v["present"])] = r0
+                # the spec's call count must be the real one, so that "every call index" is exhaustive
+                ncalls = len(r0.get("calls") or [])
+                if v["present"] == 0 and ncalls != v["calls"]:
+                    ctx.violation(cases[i]["id"], dict(input=v, rendered=cases[i], expected={"calls": v["calls"]}, actual={"calls": r0.get("calls")}, flow="calls"))
+        for i, v in enumerate(vecs):
+            r1 = res[cases[i]["id"]]
+            b = base[(v["kind"], v["cls"], v["present"])]
+            fired = v["expect"] == "err"
+            ctx.note_case(["urlfault", v["kind"], v["cls"], v["present"], v["fault"]], nontrivial=fired,
+                          sample=dict(main=cases[i]["files"]["main.scss"], fault=v["fault"], observed=r1.get("status")) if i % 97 == 5 else None)
+            ctx.traces += 1
+            if fired:
+                obs = "err" if (r1.get("status") == "err" and not r1.get("out")) else "not-err:" + str(r1.get("status"))
+                exp = "err"
+            else:
+                obs = [r1.get("status"), r1.get("out"), (r1.get("err") or "")[:60]]
+                exp = [b.get("status"), b.get("out"), (b.get("err") or "")[:60]]
+            if obs != exp:
+                ctx.violation(cases[i]["id"], dict(input={k: v[k] for k in ("kind", "cls", "present", "fault")}, rendered=cases[i], expected=exp, actual=obs,
+                                                   raw={k: r1.get(k) for k in ("status", "out", "err", "calls")}, spec_operator="Resolve!FaultOutcome", flow="urlfault"))
+
+    def run(self, ctx):
+        super().run(ctx)
+        self.url_faults(ctx)
 
     def flow_a(self, ctx, vecs, tag):
         ctx.add_background("C02")     # the load-css lock defect (C02) shows in these runs but is no loader-failure defect
